@@ -35,7 +35,7 @@ ASSUMPTIONS = [
     "the heap is shared as in Python: in-place mutation of a value object through a proxy is visible wherever that object is referenced; only *bindings* are per context",
     "threads realise sibling contexts (a new thread starts with an empty context); parent/child is realised with copy_context and asyncio.create_task",
 ]
-TIERS = {"quick": dict(nshards=16, tuples=120, shape=[(2, 3)], thread_scheds=80, async_scheds=50, stress_ops=0),
+TIERS = {"quick": dict(nshards=16, tuples=120, shape=[(2, 3)], thread_scheds=80, async_scheds=50, stress_ops=1500),
          "thorough": dict(nshards=64, tuples=260, shape=[(2, 4), (3, 3), (2, 3)], thread_scheds=120, async_scheds=60, stress_ops=6000)}
 EXHAUSTIVE_SUBSPACES = {"quick": ["all interleavings of 2 contexts x 3 operations for each sampled operation tuple"],
                         "thorough": ["all interleavings of 2x4 and 3x3 operations for each sampled operation tuple"]}
@@ -608,17 +608,36 @@ def stress(L, rec, rng, nops):
             time.sleep(0)
 
     mon.register_callback(TOOL, mon.events.LINE, on_line)
-    funcs = [L.Local.__setattr__, L.Local.__getattr__, L.Local.__delattr__, L.LocalStack.push, L.LocalStack.pop, L.Local.__release_local__]
+    class _F:  # every function defined on the two classes (also private helpers a refactoring may add)
+        def __init__(self, code):
+            self.__code__ = code
+
+    funcs = [_F(f.__code__) for cls_ in (L.Local, L.LocalStack) for f in vars(cls_).values() if hasattr(f, "__code__")]
+    funcs += [_F(getattr(f, "fget").__code__) for cls_ in (L.Local, L.LocalStack) for f in vars(cls_).values() if isinstance(f, property) and f.fget is not None]
     for f in funcs:
         mon.set_local_events(TOOL, f.__code__, mon.events.LINE)
-    loc, stk = L.Local(), L.LocalStack()
     errs = []
     seed0 = rng.randrange(1 << 30)
+    ROUNDS = 24
+    state = {}
 
     def body(i):
-        r = _random.Random(seed0 + i)
+        # every round starts on brand-new anonymous locals whose very first use happens on all threads at once
+        for rnd in range(ROUNDS):
+            try:
+                start.wait(timeout=30)
+            except threading.BrokenBarrierError:
+                return
+            one_round(i, rnd, state["loc"], state["stk"])
+            try:
+                done.wait(timeout=30)
+            except threading.BrokenBarrierError:
+                return
+
+    def one_round(i, rnd, loc, stk):
+        r = _random.Random(seed0 + i + 1000 * rnd)
         md, ms = {}, []
-        for k in range(nops):
+        for k in range(max(4, nops // ROUNDS)):
             op = r.randint(0, 5)
             if op == 0:
                 v = (i, k)
@@ -639,14 +658,26 @@ def stress(L, rec, rng, nops):
                 L.release_local(stk)
                 md, ms = {}, []
             if getattr(loc, "x", None) != md.get("x") or stk.top != (ms[-1] if ms else None):
-                errs.append(("view", i, k, getattr(loc, "x", None), md.get("x"), stk.top))
+                errs.append(("view", i, rnd, k, getattr(loc, "x", None), md.get("x"), stk.top))
                 return
 
+    def fresh():
+        state["loc"], state["stk"] = L.Local(), L.LocalStack()
+
+    fresh()
+    start = threading.Barrier(8)
+    done = threading.Barrier(8, action=fresh)
+    old_si = sys.getswitchinterval()
+    sys.setswitchinterval(1e-5)
     ts = [threading.Thread(target=body, args=(i,)) for i in range(8)]
-    for t in ts:
-        t.start()
-    for t in ts:
-        t.join()
+    try:
+        for t in ts:
+            t.start()
+        for t in ts:
+            t.join(600)
+    finally:
+        sys.setswitchinterval(old_si)
+    rec.observe("stress_rounds_on_fresh_locals", ROUNDS)
     for f in funcs:
         mon.set_local_events(TOOL, f.__code__, 0)
     mon.free_tool_id(TOOL)
